@@ -785,6 +785,9 @@ class VHDXInspector(FileInspector):
         # Make sure we found the metadata region by checking the signature
         sig, reserved, count = struct.unpack('<8sHH', meta_buffer[:12])
         if sig != b'metadata':
+            # We are done with this region, no matter how much of it we
+            # happen to have been given so far.
+            self.region('metadata').length = len(meta_buffer)
             raise ImageFormatError(
                 'Invalid signature for metadata region: %r' % sig)
 
@@ -797,6 +800,7 @@ class VHDXInspector(FileInspector):
             return None
 
         if count >= 2048:
+            self.region('metadata').length = len(meta_buffer)
             raise ImageFormatError(
                 'Metadata item count is %i (limit 2047)' % count)
 
